@@ -4,6 +4,6 @@ EXTENDS RRT, Json, MCCommon
 Emit ==
   (MC_Emit /\ pc' = "idle" /\ res'.kind # "none" /\ (pc = "loop" \/ ncalls' # ncalls)) =>
      PrintT(<<"HIST", ToJson([planner |-> "rrt", topo |-> MC_T, maxd |-> MC_MaxDist, rad2 |-> 0, lvs |-> MC_Lvs,
-                             bias |-> MC_Bias, seeded |-> MC_Seeded, valid |-> valid, probs |-> probs,
+                             bias |-> MC_Bias, seeded |-> MC_Seeded, worlds |-> worlds, probs |-> probs,
                              calls |-> hist'])>>)
 =============================================================================
